@@ -115,7 +115,10 @@ CLAIMS = {
    text="Theorems for every payload, read sequence and poll oracle: the callback events of download and upload have the shape "
         "poll-begin-(block, notify, poll)*-end with notify = block size <= 8192 and nothing after a poll that reported true; cancelled "
         "before start = a single poll; cancellation sends ABOR, closes the data connection without graceful shutdown and returns ABOR's "
-        "replies; no ABOR otherwise. Correspondence: real transfers x cancellation at poll 0..4/never x four methods x both types.",
+        "replies; no ABOR otherwise. Operation level (C12o.lean): a binary download cancelled at the poll after the j-th block, in all "
+        "four methods: exactly j blocks reach the sink, the callback sees poll, begin, (notify, poll) x j, end, poll, ABOR is the last "
+        "command, the data connection is closed without shutdown, the replies are set-up, preliminary and both replies to ABOR, the "
+        "session is in step again. Correspondence: real transfers x cancellation at poll 0..4/never x four methods x both types.",
    note="The lockstep aspect of ABOR (a server that had already completed the transfer) is C02's recorded finding.", ref="DESIGN.md section 7 C12"),
  "C14": dict(
    text="Theorems for every API call in every state (any server behaviour, any fault): the transcript events (connect, command written, "
